@@ -119,4 +119,81 @@ ReaderKind(t) ==
            [] OTHER -> "unsupported"
 
 WriterKind(a) == CASE a[1] \in {"const", "code"} -> "constant" [] OTHER -> a[1]
+
+\* ---------------------------------------------------------------- the reader (from_json_data), as a function on trees
+\* Mirrors _json_data.py: keys that are absent take the dataclass default; an argument document is dispatched on
+\* its keys in the reader's order (ReaderKind); a constant document on int, float, string, type, real, bytes,
+\* frozenset in that order; a dict under "constant" that has a "filename" key is a nested CodeData.
+HasKey(o, k) == \E i \in DOMAIN o[2] : o[2][i][1] = k
+GetK(o, k) == o[2][CHOOSE i \in DOMAIN o[2] : o[2][i][1] = k][2]
+Unprefix(pre, s) == CHOOSE a \in C!AtomNames : (pre \o a) = s
+NumRange == -300..400                      \* TLC cannot parse a string: the integers of the bounded model
+NumOf(t) == CHOOSE n \in NumRange : ToString(n) = t[2]
+StrOf(t) == IF t[1] = "s" THEN t[2] ELSE Unprefix("repr:", GetK(t, "string")[2])
+FloatAtomOf(t) ==
+    IF t[1] = "f" THEN t[2]
+    ELSE LET v == GetK(t, "float")[2] IN CASE v = "nan" -> "nan" [] v = "inf" -> "inf" [] OTHER -> "ninf"
+
+RECURSIVE ConstOf(_)
+ConstOf(t) ==
+    CASE t[1] \in {"i", "b", "f", "s"} -> C!At(t[2])
+      [] t[1] = "n" -> C!At("none")
+      [] t[1] = "a" -> <<"tuple", [i \in DOMAIN t[2] |-> ConstOf(t[2][i])]>>
+      [] OTHER ->
+            CASE HasKey(t, "int") -> C!At(GetK(t, "int")[2])
+              [] HasKey(t, "float") -> C!At(FloatAtomOf(t))
+              [] HasKey(t, "string") -> C!At(StrOf(t))
+              [] HasKey(t, "type") -> C!At("ellipsis")
+              [] HasKey(t, "real") -> <<"complex", FloatAtomOf(GetK(t, "real")), FloatAtomOf(GetK(t, "imag"))>>
+              [] HasKey(t, "bytes") -> C!At(Unprefix("b64:", GetK(t, "bytes")[2]))
+              [] OTHER -> <<"frozenset", {ConstOf(GetK(t, "frozenset")[2][i]) : i \in DOMAIN GetK(t, "frozenset")[2]}>>
+
+OptNum(o, k) == IF HasKey(o, k) THEN <<NumOf(GetK(o, k))>> ELSE <<>>
+OptStr(o, k) == IF HasKey(o, k) THEN <<StrOf(GetK(o, k))>> ELSE <<>>
+StrsOf(o, k) == IF HasKey(o, k) THEN [i \in DOMAIN GetK(o, k)[2] |-> StrOf(GetK(o, k)[2][i])] ELSE <<>>
+NumsOf(o, k) == IF HasKey(o, k) THEN [i \in DOMAIN GetK(o, k)[2] |-> NumOf(GetK(o, k)[2][i])] ELSE <<>>
+
+RECURSIVE FromDoc(_), ArgOf(_)
+
+ArgOf(t) ==
+    LET kind == ReaderKind(t) IN
+    CASE kind = "int" -> <<"int", NumOf(t)>>
+      [] kind = "jump" -> <<"jump", NumOf(GetK(t, "target")), HasKey(t, "relative") /\ GetK(t, "relative")[2] = "true">>
+      [] kind \in {"name", "varname", "cellvar"} -> <<kind, StrOf(GetK(t, kind)), OptNum(t, "_index_override")>>
+      [] kind = "freevar" -> <<"freevar", StrOf(GetK(t, "freevar"))>>
+      [] kind = "constant" ->
+            LET c == GetK(t, "constant") IN
+            IF c[1] = "o" /\ HasKey(c, "filename")
+            THEN <<"code", FromDoc(c), OptNum(t, "_index_override")>>
+            ELSE <<"const", ConstOf(c), OptNum(t, "_index_override")>>
+      [] kind = "noarg" -> <<"noarg", NumOf(GetK(t, "_arg"))>>
+      [] OTHER -> <<"unsupported">>
+
+InstrOf(t) ==
+    [name |-> GetK(t, "name")[2],
+     arg |-> IF HasKey(t, "arg") THEN ArgOf(GetK(t, "arg")) ELSE <<"noarg", 0>>,
+     nargs |-> OptNum(t, "_n_args_override"), line |-> OptNum(t, "line_number"), lo |-> NumsOf(t, "_line_offsets_override")]
+
+TypeOf(o) ==
+    IF ~HasKey(o, "type") THEN <<"none">>
+    ELSE LET t == GetK(o, "type")
+             a == IF HasKey(t, "args") THEN GetK(t, "args") ELSE <<"o", <<>>>>
+         IN <<"fn", [po |-> StrsOf(a, "positional_only"), pk |-> StrsOf(a, "positional_or_keyword"),
+                     va |-> OptStr(a, "var_positional"), ko |-> StrsOf(a, "keyword_only"), vk |-> OptStr(a, "var_keyword")],
+              OptStr(t, "docstring"), IF HasKey(t, "type") THEN <<GetK(t, "type")[2]>> ELSE <<>>>>
+
+FromDoc(o) ==
+    [blocks |-> [b \in DOMAIN GetK(o, "blocks")[2] |->
+                    [k \in DOMAIN GetK(o, "blocks")[2][b][2] |-> InstrOf(GetK(o, "blocks")[2][b][2][k])]],
+     filename |-> StrOf(GetK(o, "filename")), first |-> NumOf(GetK(o, "first_line_number")),
+     name |-> StrOf(GetK(o, "name")), stacksize |-> NumOf(GetK(o, "stacksize")),
+     type |-> TypeOf(o), freevars |-> StrsOf(o, "freevars"),
+     fut |-> HasKey(o, "future_annotations") /\ GetK(o, "future_annotations")[2] = "true",
+     nested |-> HasKey(o, "_nested") /\ GetK(o, "_nested")[2] = "true",
+     addline |-> IF HasKey(o, "_additional_line")
+                 THEN LET al == GetK(o, "_additional_line") IN
+                      << << IF GetK(al, "line")[1] = "n" THEN <<>> ELSE <<NumOf(GetK(al, "line"))>>, NumsOf(al, "additional_offsets") >> >>
+                 ELSE <<>>,
+     addargs |-> IF HasKey(o, "_additional_args")
+                 THEN [k \in DOMAIN GetK(o, "_additional_args")[2] |-> ArgOf(GetK(o, "_additional_args")[2][k])] ELSE <<>>]
 =============================================================================
